@@ -44,15 +44,19 @@ def countUs (s : Str) : Nat := s.count '_'
 
 def unbalanced (s : Str) : Bool := countBold s % 2 != 0 || countUs s % 2 != 0
 
+/-- the cut at offset `k` lies between the two asterisks of a `**` -/
+def splitsStar (t : Str) (k : Nat) : Bool := decide (k > 0) && t[k - 1]? = some '*' && t[k]? = some '*'
+
 /-- prefix marker balance loop -/
 def balPrefix (t : Str) : Nat → Nat
   | 0 => 0
-  | p + 1 => if unbalanced (t.take (p + 1)) then balPrefix t p else p + 1
+  | p + 1 => if unbalanced (t.take (p + 1)) || splitsStar t (p + 1) then balPrefix t p else p + 1
 
 /-- suffix marker balance loop -/
 def balSuffix (t : Str) : Nat → Nat
   | 0 => 0
-  | s + 1 => if unbalanced (t.drop (t.length - (s + 1))) then balSuffix t s else s + 1
+  | s + 1 =>
+    if unbalanced (t.drop (t.length - (s + 1))) || splitsStar t (t.length - (s + 1)) then balSuffix t s else s + 1
 
 /-- `x.isspace()` for a non-empty string -/
 def allSpace (sp : Char → Bool) (s : Str) : Bool := !s.isEmpty && s.all sp
